@@ -88,4 +88,29 @@ def sem (σ : Leaves) : Rel → List Row
   | .transfer _ _ t => sem σ t
   | .select _ _ _ _ _ _ _ _ t => sem σ t
 
+/-- Rows that agree on the key columns agree on all columns (the documented contract of
+`ColumnTag.is_key`, under which the code's key-based deduplication is a row deduplication). -/
+def rowsKeyDetermined (cols : Cols) (rows : List Row) : Bool :=
+  rows.all (fun a => rows.all (fun b => !(a.agree b cols.keys) || a.agree b cols))
+
+/-- The input of every deduplication node in the tree is key-determined. -/
+def keyDetermined (σ : Leaves) : Rel → Bool
+  | .leaf .. => true
+  | .unary op t cols =>
+    keyDetermined σ t &&
+      (match op with
+       | .dedup => rowsKeyDetermined cols (sem σ t)
+       | _ => true)
+  | .binary _ l r _ => keyDetermined σ l && keyDetermined σ r
+  | .mat _ _ t => keyDetermined σ t
+  | .transfer _ _ t => keyDetermined σ t
+  | .select _ _ _ _ _ _ _ _ t => keyDetermined σ t
+
+/-- Static well-formedness of applying `op` to a relation with columns `tcols`. -/
+def UOp.wfOn (op : UOp) (tcols : Cols) : Bool :=
+  op.columnsRequired.subset tcols &&
+    (match op with
+     | .calc tag _ => decide (tag ∉ tcols)
+     | _ => true)
+
 end DafRel
